@@ -47,3 +47,26 @@ package dashboards
 //@   site call os.Remove #1:
 //@     assert [only-files-of-registered-dashboards-are-removed] ghost(0, "dashIdRegistered") == 1
 //@ end
+
+// C20 (saved objects behave as a keyed store: reads return the last written
+// state): a dashboard's name lives in two places, its details file and its
+// item in the folder structure (which listings, folder contents and the
+// per-folder uniqueness checks read).  Whatever else one update does — also
+// when it moves the dashboard to another folder — the structure that is
+// written back carries the name given in this update.  Ghosts: dashStored /
+// dashStoredName = the item was stored into the structure, and under which name.
+//@ ghostdecl dashStored int
+//@ ghostdecl dashStoredName string
+//@ func updateDashboard
+//@   props C20
+//@   assumecalleerequires
+//@   ghostinit ghost(0, "dashStored") == 0
+//@   site mapupdate structure.Items[id] #1:
+//@     ghostset ghost(0, "dashStored") = 1
+//@     ghostset ghost(0, "dashStoredName") = item.Name
+//@   site mapupdate structure.Items[id] #2:
+//@     ghostset ghost(0, "dashStored") = 1
+//@     ghostset ghost(0, "dashStoredName") = item.Name
+//@   site call writeFolderStructure #1:
+//@     assert [the-structure-written-back-carries-the-new-name] item.Name == dName && implies(ghost(0, "dashStored") == 1, ghost(0, "dashStoredName") == dName)
+//@ end
